@@ -151,7 +151,7 @@ func refValid(p *pre, b *blockchain.Block) (bool, string) {
 		}
 	}
 	for _, t := range b.Transactions {
-		if len(t.Params) > 0 && (t.Params[0] == 1 || t.Params[0] == 3 || t.Params[0] == 0xEE) {
+		if len(t.Params) > 0 && (t.Params[0] == 1 || t.Params[0] == 3 || t.Params[0] == 6 || t.Params[0] == 0xEE) {
 			return false, "transaction-verify-or-execute"
 		}
 	}
